@@ -1,4 +1,5 @@
-(** C11 — guards of the findings for the client-credentials and jwt-finalizer caches *)
+(** C11 — guards of the findings for the client-credentials, jwt-finalizer, RFC 7234 and jwt key caches
+    (F4 in each of them, F5, F8, F9, F11) *)
 From HV Require Export Base.Prelude C11.Model C11.Spec C11.Model2.
 Local Open Scope string_scope.
 Local Open Scope list_scope.
